@@ -80,3 +80,12 @@ func (s *Slice[V]) Append(values ...V) {
 func (s *Slice[V]) AppendUnsafe(values ...V) {
 	s.Slice = append(s.Slice, values...)
 }
+
+// Call the given function for every element while holding the lock.
+func (s *Slice[V]) Each(fn func(val V)) {
+	s.mu.Lock()
+	for _, val := range s.Slice {
+		fn(val)
+	}
+	s.mu.Unlock()
+}
